@@ -257,18 +257,27 @@ theorem decGroups_encGroups (ac : AcAbility)
     have hm : mask gs < 65536 := (mask_asc gs 16 hp hlt).1
     have hv : mask gs % 256 + 256 * (mask gs / 256 % 256) = mask gs := by omega
     simp only [decGroups, followingLength, followingWithGroups, hgr, Option.isSome_some, ↓reduceIte,
-      encGroups, le16Bytes, List.cons_append, encGroupDisplay_eq_mask, hv, decGroupDisplay]
+      encGroups, le16Bytes, List.cons_append, encGroupDisplay_eq_mask, hv, decGroupDisplay, Nat.le_refl]
     have := filter_range_mask gs 16 hp hlt
     simp only [MAX_GROUP_NUMBER]
     rw [this]
 
-/-- decoding the bytes of one encoded record (whatever follows) gives the record back -/
-theorem decRec_encRec (ac : AcAbility) (h : WFRec ac) (rest : Bytes) :
-    decRec (encRec ac ++ rest) = .ok ac := by
+/-- the encoder's records are as long as their following-length byte says -/
+theorem recSize_eq (ac : AcAbility) : recSize ac = 2 + followingLength ac := by
+  simp only [recSize, followingLength, STRUCT_size, FOLLOWING_LENGTH_BASE]; omega
+
+/-- decoding the bytes of one encoded record (whatever follows, whenever the announced length leaves room for
+    it) gives the record back, and its following length -/
+theorem decRec_encRec (ac : AcAbility) (h : WFRec ac) (rest : Bytes) (avail : Nat) (hav : recSize ac ≤ avail) :
+    decRec (encRec ac ++ rest) avail = .ok (ac, followingLength ac) := by
   obtain ⟨_, _, _, _, _, ⟨hnl, hn0, hnu, _⟩, ⟨hmk, hmu⟩, ⟨hfk, hfu⟩, hg⟩ := h
   have hlen := encodeCString_length ac.ac_name nameLen
+  have hchk : ¬ (followingLength ac < FOLLOWING_LENGTH_BASE ∨ avail < 2 + followingLength ac) := by
+    rw [recSize_eq] at hav
+    simp only [followingLength] at hav ⊢
+    omega
   simp only [encRec, List.cons_append, List.nil_append, List.append_assoc, decRec,
-    List.drop_left' hlen, List.take_left' hlen,
+    List.drop_left' hlen, List.take_left' hlen, hchk, ↓reduceIte,
     decGroups_encGroups ac hg rest, decodeCString_encodeCString ac.ac_name nameLen hnl hn0 hnu,
     decModeSupport_enc _ hmk hmu, decFanSpeedSupport_enc _ hfk hfu]
 
@@ -292,10 +301,10 @@ theorem decLoop_encode (acs : List AcAbility) (hwf : ∀ ac ∈ acs, WFRec ac) (
     have hlt : pre.length < pre.length + ((ac :: acs).map recSize).sum := by
       simp only [List.map_cons, List.sum_cons]; omega
     simp only [hlt, ↓reduceDIte, List.drop_left, List.flatMap_cons, List.append_assoc]
-    rw [decRec_encRec ac (hwf ac (by simp))]
+    rw [decRec_encRec ac (hwf ac (by simp)) _ _ (by simp only [List.map_cons, List.sum_cons]; omega)]
     have hih := ih (fun x hx => hwf x (by simp [hx])) (pre ++ encRec ac)
     simp only [List.length_append, encRec_length, List.append_assoc] at hih
-    simp only [List.map_cons, List.sum_cons, ← Nat.add_assoc]
+    simp only [List.map_cons, List.sum_cons, ← Nat.add_assoc, ← recSize_eq]
     rw [hih]
 
 /-- `decode(encode(m) + rest, header with message_length = size(m))` gives `m` back and leaves `rest` -/
@@ -397,39 +406,67 @@ theorem encode_allBytes (m : Msg) (h : WF m) : AllBytes (encode m) := by
 
 /-! #### facts about every run of the decoder (any buffer, any announced length) -/
 
-/-- the loop returns the offset it started from plus the sizes of the records it produced; it stops at or
-    beyond the announced length, overshooting by less than one (long) record; it runs at least once when
-    it starts below the announced length -/
+/-- a successful iteration: the following length is at least the documented base 22, the record (`2 + L`
+    bytes) fits the rest of the announced length, and the record the encoder would write for the result is not
+    longer than the one read -/
+theorem decRec_following (bs : Bytes) (avail : Nat) (ac : AcAbility) (fl : Nat)
+    (h : decRec bs avail = .ok (ac, fl)) :
+    FOLLOWING_LENGTH_BASE ≤ fl ∧ 2 + fl ≤ avail ∧ recSize ac ≤ 2 + fl := by
+  unfold decRec at h
+  split at h
+  · rename_i acNumber following r
+    split at h
+    · split at h
+      · cases h
+      · rename_i hchk
+        split at h
+        · cases h
+        · rename_i groups hgroups
+          split at h
+          · cases h
+          · injection h with h; injection h with h1 h2
+            subst h1 h2
+            refine ⟨by omega, by omega, ?_⟩
+            simp only [recSize, STRUCT_size, GROUP_DISPLAY_STRUCT_size]
+            simp only [FOLLOWING_LENGTH_BASE] at hchk
+            have hfw : followingWithGroups = 24 := rfl
+            simp only [decGroups] at hgroups
+            by_cases hc : followingWithGroups ≤ following
+            · split <;> omega
+            · rw [if_neg hc] at hgroups
+              injection hgroups with hgroups
+              subst hgroups
+              simp only [Option.isSome_none, Bool.false_eq_true, ↓reduceIte]
+              omega
+    · cases h
+  · cases h
+
+/-- the loop stops exactly at the announced length when it starts at or below it (every record lies inside the
+    announced length) and does nothing when it starts beyond it; the records the encoder would write for the
+    result fit between the start and the final offset; it runs at least once when it starts below the
+    announced length -/
 theorem decLoop_spec (buffer : Bytes) (msgLen offset : Nat) :
     ∀ acs off, decLoop buffer msgLen offset = .ok (acs, off) →
-      off = offset + (acs.map recSize).sum ∧ msgLen ≤ off ∧
-      (offset < msgLen → acs ≠ [] ∧ off < msgLen + (STRUCT_size + GROUP_DISPLAY_STRUCT_size)) ∧
-      (msgLen ≤ offset → acs = []) := by
+      offset + (acs.map recSize).sum ≤ off ∧ (offset ≤ msgLen → off = msgLen) ∧
+      (offset < msgLen → acs ≠ []) ∧ (msgLen ≤ offset → acs = [] ∧ off = offset) := by
   fun_induction decLoop buffer msgLen offset with
   | case1 offset hlt e hrec => intro acs off h; cases h
-  | case2 offset hlt ac hrec e hloop ih => intro acs off h; cases h
-  | case3 offset hlt ac hrec acs' off' hloop ih =>
+  | case2 offset hlt ac fl hrec e hloop ih => intro acs off h; cases h
+  | case3 offset hlt ac fl hrec acs' off' hloop ih =>
     intro acs off h
     injection h with h; injection h with h1 h2
     subst h1 h2
-    obtain ⟨ho, hge, hrun, hstop⟩ := ih acs' off' hloop
-    have hsz : recSize ac ≤ STRUCT_size + GROUP_DISPLAY_STRUCT_size := by
-      simp only [recSize]; split <;> omega
-    refine ⟨by simp only [List.map_cons, List.sum_cons]; omega, hge, fun _ => ⟨by simp, ?_⟩,
-      fun hc => absurd hlt (by omega)⟩
-    by_cases hc : offset + recSize ac < msgLen
-    · exact (hrun hc).2
-    · have := hstop (by omega)
-      subst this
-      simp only [List.map_nil, List.sum_nil] at ho
-      omega
+    obtain ⟨hsum, hend, _, hstop⟩ := ih acs' off' hloop
+    obtain ⟨_, hfit, hsz⟩ := decRec_following _ _ _ _ hrec
+    refine ⟨by simp only [List.map_cons, List.sum_cons]; omega, fun _ => hend (by omega),
+      fun _ => by simp, fun hc => absurd hlt (by omega)⟩
   | case4 offset hnlt =>
     intro acs off h
     injection h with h; injection h with h1 h2
     subst h1 h2
-    exact ⟨by simp, by omega, fun hc => absurd hc hnlt, fun _ => rfl⟩
+    exact ⟨by simp, fun _ => by omega, fun hc => absurd hc hnlt, fun _ => ⟨rfl, rfl⟩⟩
 
-/-- number of loop iterations: at most one per 24 announced bytes (rounded up) -/
+/-- number of loop iterations: at most one per 24 announced bytes -/
 theorem decLoop_iterations (buffer : Bytes) (msgLen offset : Nat) (acs : List AcAbility) (off : Nat)
     (h : decLoop buffer msgLen offset = .ok (acs, off)) :
     acs.length * STRUCT_size ≤ off - offset := by
@@ -452,7 +489,8 @@ theorem decGroupDisplay_wf (v : Nat) :
   omega
 
 /-- every record the decoder produces from a byte string is well-formed -/
-theorem decRec_WF (bs : Bytes) (hb : AllBytes bs) (ac : AcAbility) (h : decRec bs = .ok ac) : WFRec ac := by
+theorem decRec_WF (bs : Bytes) (hb : AllBytes bs) (avail : Nat) (ac : AcAbility) (fl : Nat)
+    (h : decRec bs avail = .ok (ac, fl)) : WFRec ac := by
   unfold decRec at h
   split at h
   · rename_i acNumber following r
@@ -460,32 +498,34 @@ theorem decRec_WF (bs : Bytes) (hb : AllBytes bs) (ac : AcAbility) (h : decRec b
     · rename_i sg gc b23 b24 mn mx after hdrop
       split at h
       · cases h
-      · rename_i groups hgroups
-        split at h
+      · split at h
         · cases h
-        · rename_i name hname
-          injection h with h
-          subst h
-          have hr : ∀ x ∈ r, x < 256 := fun x hx => hb x (by simp [hx])
-          have hd : ∀ x ∈ r.drop nameLen, x < 256 := fun x hx => hr x (List.mem_of_mem_drop hx)
-          rw [hdrop] at hd
-          have hraw : AllBytes (r.take nameLen) := fun x hx => hr x (List.mem_of_mem_take hx)
-          obtain ⟨hl, h0, hu, hab⟩ := decodeCString_ok _ _ hname hraw
-          have hl' : name.length ≤ nameLen := by
-            have : (r.take nameLen).length ≤ nameLen := by simp only [List.length_take]; omega
-            omega
-          refine ⟨hb _ (by simp), hd _ (by simp), hd _ (by simp), hd _ (by simp), hd _ (by simp),
-            ⟨hl', h0, hu, hab⟩, ⟨rfl, rfl⟩, ⟨rfl, rfl⟩, fun gs hgs => ?_⟩
-          simp only at hgs
-          subst hgs
-          simp only [decGroups] at hgroups
-          split at hgroups
-          · split at hgroups
-            · injection hgroups with hg; injection hg with hg
-              subst hg
-              exact decGroupDisplay_wf _
+        · rename_i groups hgroups
+          split at h
+          · cases h
+          · rename_i name hname
+            injection h with h; injection h with h _
+            subst h
+            have hr : ∀ x ∈ r, x < 256 := fun x hx => hb x (by simp [hx])
+            have hd : ∀ x ∈ r.drop nameLen, x < 256 := fun x hx => hr x (List.mem_of_mem_drop hx)
+            rw [hdrop] at hd
+            have hraw : AllBytes (r.take nameLen) := fun x hx => hr x (List.mem_of_mem_take hx)
+            obtain ⟨hl, h0, hu, hab⟩ := decodeCString_ok _ _ hname hraw
+            have hl' : name.length ≤ nameLen := by
+              have : (r.take nameLen).length ≤ nameLen := by simp only [List.length_take]; omega
+              omega
+            refine ⟨hb _ (by simp), hd _ (by simp), hd _ (by simp), hd _ (by simp), hd _ (by simp),
+              ⟨hl', h0, hu, hab⟩, ⟨rfl, rfl⟩, ⟨rfl, rfl⟩, fun gs hgs => ?_⟩
+            simp only at hgs
+            subst hgs
+            simp only [decGroups] at hgroups
+            split at hgroups
+            · split at hgroups
+              · injection hgroups with hg; injection hg with hg
+                subst hg
+                exact decGroupDisplay_wf _
+              · cases hgroups
             · cases hgroups
-          · cases hgroups
     · cases h
   · cases h
 
@@ -493,14 +533,14 @@ theorem decLoop_WF (buffer : Bytes) (hb : AllBytes buffer) (msgLen offset : Nat)
     ∀ acs off, decLoop buffer msgLen offset = .ok (acs, off) → ∀ ac ∈ acs, WFRec ac := by
   fun_induction decLoop buffer msgLen offset with
   | case1 offset hlt e hrec => intro acs off h; cases h
-  | case2 offset hlt ac hrec e hloop ih => intro acs off h; cases h
-  | case3 offset hlt ac hrec acs' off' hloop ih =>
+  | case2 offset hlt ac fl hrec e hloop ih => intro acs off h; cases h
+  | case3 offset hlt ac fl hrec acs' off' hloop ih =>
     intro acs off h
     injection h with h; injection h with h1 h2
     subst h1 h2
     intro x hx
     rcases List.mem_cons.mp hx with rfl | hx
-    · exact decRec_WF _ (fun b hbm => hb b (List.mem_of_mem_drop hbm)) _ hrec
+    · exact decRec_WF _ (fun b hbm => hb b (List.mem_of_mem_drop hbm)) _ _ _ hrec
     · exact ih acs' off' hloop x hx
   | case4 offset hnlt =>
     intro acs off h
@@ -529,23 +569,25 @@ theorem decode_WF (buffer : Bytes) (hb : AllBytes buffer) (msgLen : Nat) (m : Ms
         · cases h
         · injection h with h; injection h with h1' h2; subst h1'
           have hspec := decLoop_spec buffer msgLen 0 acs off hloop
-          exact ⟨(hspec.2.2.1 (by omega)).1, decLoop_WF buffer hb msgLen 0 acs off hloop⟩
+          exact ⟨hspec.2.2.1 (by omega), decLoop_WF buffer hb msgLen 0 acs off hloop⟩
 
-/-- a successful decode consumes exactly the announced number of bytes, and the encoder's `size` of the
-    decoded message is that number -/
+/-- a successful decode consumes exactly the announced number of bytes; the encoder's `size` of the decoded
+    message is at most that number (it is smaller exactly when a record carried bytes after the known ones,
+    which the decoder skips: `00 2e <46 bytes>` with announced length 48 decodes to one AC whose encoding has
+    26 bytes) -/
 theorem decode_size (buffer : Bytes) (msgLen : Nat) (m : Msg) (rest : Bytes)
-    (h : decode buffer msgLen = .ok (m, rest)) : size m = msgLen ∧ rest = buffer.drop msgLen := by
+    (h : decode buffer msgLen = .ok (m, rest)) : size m ≤ msgLen ∧ rest = buffer.drop msgLen := by
   unfold decode at h
   split at h
   · rename_i h0
     injection h with h; injection h with h1 h2; subst h1 h2 h0
-    exact ⟨rfl, rfl⟩
+    exact ⟨Nat.le_refl _, rfl⟩
   · split at h
     · rename_i h1
       split at h
       · cases h
       · injection h with h; injection h with h1' h2; subst h1' h2 h1
-        exact ⟨rfl, rfl⟩
+        exact ⟨Nat.le_refl _, rfl⟩
     · split at h
       · cases h
       · rename_i acs off hloop
@@ -558,13 +600,14 @@ theorem decode_size (buffer : Bytes) (msgLen : Nat) (m : Msg) (rest : Bytes)
           subst this
           exact ⟨by simp only [size]; omega, rfl⟩
 
-/-- re-encoding any decoded message and decoding it again gives the same message -/
+/-- re-encoding any decoded message and decoding it again gives the same message (the re-encoding is not
+    longer than the payload it was decoded from) -/
 theorem decode_reencode (buffer : Bytes) (hb : AllBytes buffer) (msgLen : Nat) (m : Msg) (rest : Bytes)
     (h : decode buffer msgLen = .ok (m, rest)) (rest' : Bytes) :
-    encodeE m = .ok (encode m) ∧ (encode m).length = msgLen ∧
+    encodeE m = .ok (encode m) ∧ (encode m).length ≤ msgLen ∧
     decode (encode m ++ rest') (size m) = .ok (m, rest') := by
   have hwf := decode_WF buffer hb msgLen m rest h
-  exact ⟨encodeE_ok m hwf, by rw [encode_length, (decode_size buffer msgLen m rest h).1],
+  exact ⟨encodeE_ok m hwf, by rw [encode_length]; exact (decode_size buffer msgLen m rest h).1,
     decode_encode m hwf rest'⟩
 
 end At4
